@@ -70,7 +70,7 @@ def body_st(charset, ascii_only=False):
     else:
         alpha = st.one_of(st.characters(min_codepoint=0x20, max_codepoint=0x2FFF, exclude_categories=("Cs", "Cn")), st.sampled_from("\r\n\t€漢💩"))
     inner = inner_small = st.one_of(
-        st.sampled_from(["OFX><A>x</A></OFX", "OFX>\r\n<A>1\r\n</OFX", "A", "a>b<c", "OFX><A>AT&#38;T &#60;b&#62;</A></OFX", "OFX>" + "\n<A>1".join(["", "", "", "", "", "", "", "", "", "", "", ""]) + "\n</OFX", "OFX><A>ready?>go</A></OFX"]),
+        st.sampled_from(["OFX><A>x</A></OFX", "OFX>\r\n<A>1\r\n</OFX", "A", "a>b<c", "OFX><A>AT&#38;T &#60;b&#62;</A></OFX", "OFX>" + "\n<A>1".join(["", "", "", "", "", "", "", "", "", "", "", ""]) + "\n</OFX", "OFX><A>ready?>go</A></OFX", "OFX><A>1</A></OFX><OFX><A>2</A></OFX", "OFX><A>1</A></OFX>\n<!-- trailer --", "OFX><A>Ã©</A></OFX", "A>Â£5 Ã¤</A"] + (["A>â‚¬ â€œqâ€\u009d</A".replace("\u009d", "")] if charset == "1252" else []) if not ascii_only and charset != "NONE" else ["OFX><A>x</A></OFX", "OFX><A>1</A></OFX><OFX><A>2</A></OFX", "OFX><A>1</A></OFX>\n<!-- trailer --", "A"]),
         st.text(alpha, min_size=0, max_size=30),
         # entity and character-reference spellings are body text like any other: the header parser hands them over verbatim
         st.lists(st.one_of(st.sampled_from(_encodable(ENTITY_BITS, charset, ascii_only)), st.text(alpha, min_size=0, max_size=4)), min_size=1, max_size=8).map("".join),
